@@ -4,6 +4,7 @@ mod checks;
 mod lattice;
 mod model;
 mod report;
+mod sysshim;
 
 use report::Report;
 
@@ -22,6 +23,7 @@ fn level_of(id: &str) -> &'static str {
 
 fn run_check(id: &str, rep: &mut Report) -> bool {
     match id {
+        "C19" => checks::c19::run(rep),
         "C20" => checks::c20::run(rep),
         _ => return false,
     }
@@ -47,6 +49,10 @@ fn main() {
             }
             if tier != "quick" && tier != "thorough" {
                 tier = "quick".into();
+            }
+            if let Err(e) = sysshim::self_test() {
+                eprintln!("MACHINERY FAILURE: {e}");
+                std::process::exit(2);
             }
             let mut rep = Report::new(&id, &tier, level_of(&id));
             let res = std::panic::catch_unwind(std::panic::AssertUnwindSafe(|| run_check(&id, &mut rep)));
@@ -76,6 +82,7 @@ fn main() {
             rep.outcome("replay");
             rep.outcome("replay2");
             match id.as_str() {
+                "C19" => checks::c19::replay(&v["case"], &mut rep),
                 "C20" => checks::c20::replay(&v["case"], &mut rep),
                 _ => {
                     eprintln!("no replay for {id}");
